@@ -323,3 +323,18 @@ Example new_rs_example :
   run_fn (call_of level0) new_rs (VName (s "a")) (VNames [s "x"; s "y"; s "x"])
   = Some (VElem (Elem (s "a") false true 1 [(Mand, s "x"); (Mand, s "y")] [] None), VName (s "a")).
 Proof. vm_compute. reflexivity. Qed.
+
+(* ---------- the two one-line methods ---------- *)
+(* `self.count += 1` on the unbounded counter of the model (the u32 overflow is excluded by
+   C07_no_overflow) *)
+Lemma increment_rs_correct : forall e,
+  run_fn no_call increment_rs (VElem e) VUnit = Some (VUnit, VElem (increment e)).
+Proof. intros [n t x k a c p]. reflexivity. Qed.
+
+(* `self.attributes = merge_necessity(self.attributes, attributes); self`, where the call of
+   merge_necessity is read as the model function (Properties/C15rs.v: that is what its source
+   computes) *)
+Lemma merge_attr_rs_correct : forall e l,
+  run_fn no_call merge_attr_rs (VElem e) (VAttrs l)
+  = Some (VElem (merge_attr e l), VElem (merge_attr e l)).
+Proof. intros [n t x k a c p] l. reflexivity. Qed.
